@@ -49,7 +49,7 @@ CHECKS["C01"] = dict(
    design="7/C01")
 CHECKS["C02"] = dict(
    category="translation_validation",
-   text="Proven validator: validC02_sound shows that acceptance implies d+1 phases whose Wx sequence has <0|U(a)|0> (respDef .Wx .z) equal to P(a) within 100*tol at every a in [-1,1]. Each run calls the real entry point with signal_operator Wx, measurement z on ~240 complex polynomials (corners of phase lists in 6 styles, perturbed, scaled past 1, |P(+-1)| != 1) over a tolerance grid; returned phases are judged by the validator (exact witness search on rejection).",
+   text="Proven validator: validC02_sound shows that acceptance implies d+1 phases whose Wx sequence has <0|U(a)|0> (respDef .Wx .z) equal to P(a) within 100*tol at every a in [-1,1]. Each run calls the real entry point with signal_operator Wx, measurement z on ~240 complex polynomials (corners of phase lists in 6 styles, perturbed, scaled past 1, |P(+-1)| != 1) over a tolerance grid (library default and tolerance = 0 included); returned phases are judged by the validator (exact witness search on rejection). Under tolerance = 0 the budget 100*tol is empty, so a return is judged by a proven LOWER bound of the deviation at an exact witness point against rounding level (1e-12 per phase): only a deviation certainly above rounding is a violation.",
    note='''Trusted: Lean kernel + Mathlib, axioms propext/Classical.choice/Quot.sound, the compiled model driver executing the validator, the Python harness (float->Fraction, seed forcing by patching numpy.random.randint in the harness process, generators). ''' + "The set of inputs is sampled; whether the pipeline returns is explored.",
    technique="Lean 4 proven validator applied to every returned phase list",
    design="7/C02")
